@@ -30,10 +30,14 @@ def main():
             shutil.copytree("/repo", repo, ignore=shutil.ignore_patterns(".git"))
             p = os.path.join(repo, m["file"])
             s = open(p).read()
-            if s.count(m["old"]) != 1:
-                results.append((m["name"], "STALE (pattern occurs %d times)" % s.count(m["old"]), 0))
+            edits = m.get("edits") or [{"old": m["old"], "new": m["new"]}]
+            stale = [e for e in edits if s.count(e["old"]) != 1]
+            if stale:
+                results.append((m["name"], "STALE (pattern occurs %d times)" % s.count(stale[0]["old"]), 0))
                 continue
-            open(p, "w").write(s.replace(m["old"], m["new"]) + m.get("append", ""))
+            for e in edits:
+                s = s.replace(e["old"], e["new"])
+            open(p, "w").write(s + m.get("append", ""))
             b = subprocess.run(["go", "build", "./..."], cwd=repo, capture_output=True, text=True,
                                env=dict(os.environ, GOFLAGS="-mod=mod", GOPROXY="off", GOSUMDB="off", GOTOOLCHAIN="local"))
             if b.returncode != 0:
